@@ -118,8 +118,9 @@ def finish(prop, tier, seed, t0, level, coverage, assumptions, res, technique_no
         json.dump(ev, f, indent=1, default=str)
     for k in res.known_hits:
         print("KNOWN-FINDING: property=%s %s" % (prop, k))
-    for e in res.errors:
-        print("CHECKER-ERROR property=%s %s" % (prop, e))
+    for e in res.errors[:5]:
+        print("CHECKER-ERROR property=%s %s" % (prop, e[:600]))
+    ev["coverage"]["checker_errors"] = res.errors
     for u in res.undecided[:4]:
         print("UNDECIDED property=%s %s" % (prop, u[:400]))
     if len(res.undecided) > 4:
@@ -135,7 +136,10 @@ def finish(prop, tier, seed, t0, level, coverage, assumptions, res, technique_no
     ev["coverage"]["undecided"] = res.undecided
     with open(os.path.join(VERIF, "evidence", "%s.json" % prop), "w") as f:
         json.dump(ev, f, indent=1, default=str)
-    if res.errors:
+    confirmed = [v for v in res.violations if v[2] == ""]
+    if confirmed:
+        code = 1          # a counter-model replayed on the real code decides, whatever else went wrong
+    elif res.errors:
         code = 3
     elif res.violations:
         code = 1
